@@ -42,6 +42,9 @@ ASSUMPTIONS = [
   "amplitude), > 10^5 above the observed rounding error; float frequencies are 0 or at "
   "least 1e-6 in magnitude (for |freq| < ~3.5e-308 modulo/step overflows to inf inside "
   "modulo_counter - a double-precision artefact outside the exact-arithmetic statement)",
+  "karplus_strong: freq > 0 with lags 2*pi/freq from 1e-3 to ~14 samples, tau > 0 (or inf); for a "
+  "lag below one sample the left interpolation neighbour is the current output sample, so the "
+  "comb equation is solved for it: y[i] = alpha*w*y[i-1] / (1 - alpha*(1-w))",
   "resample: input length >= rint((order+1)/2) (a shorter input cannot fill the leading "
   "half window), positive old/new; exact for Q ratios, 1e-9 for int/float ratios; "
   "the window start is a = ceil(t - (order+1)/2) (ties keep the earlier window)",
@@ -712,13 +715,26 @@ def run_sinusoid(case):
 # --------------------------------------------------------------------------
 # karplus_strong
 # --------------------------------------------------------------------------
+def _lag2freq(lag):
+  return 2 * math.pi / lag
+
+
 def strat_karplus(tier):
   return st.fixed_dictionaries(dict(
     freq=st.one_of(st.floats(min_value=.45, max_value=3.1, allow_nan=False),
                    st.floats(min_value=.45, max_value=3.1, allow_nan=False),
                    st.integers(45, 310).map(lambda k: k / 100.),
-                   st.integers(2, 9).map(lambda k: 2 * math.pi / k)),
-    tau=st.one_of(st.just("default"), st.just("inf"), st.floats(min_value=3, max_value=1e4, allow_nan=False)),
+                   st.integers(1, 9).map(lambda k: 2 * math.pi / k),
+                   # lags 2*pi/freq below one sample (freq > 2*pi): the left interpolation tap is
+                   # the current sample itself, the recursion has to be solved for it
+                   st.floats(min_value=1e-3, max_value=1, exclude_max=True, allow_nan=False).map(_lag2freq),
+                   st.integers(1, 99).map(lambda k: _lag2freq(k / 100.)),
+                   st.sampled_from([.5, .25, .125, .75, .0625, .9375]).map(_lag2freq),
+                   # lags between one and two samples (pi < freq <= 2*pi), ends included
+                   st.floats(min_value=1, max_value=2, allow_nan=False).map(_lag2freq),
+                   st.integers(100, 200).map(lambda k: _lag2freq(k / 100.))),
+    tau=st.one_of(st.just("default"), st.just("inf"), st.floats(min_value=3, max_value=1e4, allow_nan=False),
+                  st.floats(min_value=.25, max_value=3, allow_nan=False)),
     memory=st.lists(qval(-2, 2), min_size=16, max_size=18),
     route=st.sampled_from(["list", "stream", "iter", "callable"]),
     n=st.integers(1, 50)))
@@ -753,14 +769,28 @@ def run_karplus(case):
   y = []
   past = lambda j: y[j] if j >= 0 else fr(mem[-j - 1])
   amp = max(abs(fr(v)) for v in mem[:lm]) + Fraction(1, 10 ** 6)
+  # y[i] = alpha * ((1 - w) * y[i - k] + w * y[i - k - 1]).  For a lag below one sample (k == 0)
+  # the left neighbour is y[i] itself: the equation is solved for it,
+  # y[i] = alpha * w * y[i - 1] / (1 - alpha * (1 - w))   (alpha <= 1 and w > 0: never singular)
+  own = taps.get(0, Fraction(0))
+  if own >= 1:
+    raise Violation("oracle: degenerate comb, alpha*(1-w) = %r at delay %r" % (float(own), delay))
   for i in range(n):
-    y.append(sum(c * past(i - dl) for dl, c in taps.items()))
+    y.append(sum(c * past(i - dl) for dl, c in taps.items() if dl) / (1 - own))
+    if isinstance(got[i], float) and not math.isfinite(got[i]):
+      raise Violation("karplus_strong(freq=%r, tau=%r, memory=%r)[%d] = %r"
+                      % (freq, tau, mem[:lm], i, got[i]))
     if abs(fr(got[i]) - y[i]) > Fraction(TOL) * amp:
       raise Violation("karplus_strong(freq=%r, tau=%r, memory=%r)[%d] = %r, linearised comb "
                       "(delay=%r, alpha=%r) on the memory gives %r"
                       % (freq, tau, mem[:lm], i, float(got[i]), delay, alpha, float(y[i])))
   labels = ["karplus", "integer delay" if not w else "fractional delay", "memory:" + route,
-            "tau:" + (case["tau"] if isinstance(case["tau"], str) else "given")]
+            "tau:" + (case["tau"] if isinstance(case["tau"], str) else "given"),
+            "lag<1" if k == 0 else ("1<=lag<2" if k == 1 else "lag>=2")]
+  if delay == 1:
+    labels.append("lag==1")
+  if isinstance(tau, float) and tau < 3:
+    labels.append("tau<3")
   if n > lm:
     labels.append("feedback reached")
   return {"nontrivial": n > lm and bool(w), "labels": labels}
@@ -927,8 +957,11 @@ CLAUSES = [
          floors={"freq stream": .08, "wrapped": .1},
          doc="sinusoid == sin(phase + sum of earlier freq) within 1e-9"),
   Clause("karplus", strat_karplus, run_karplus, quick=300, thorough=6000,
-         floors={"fractional delay": .2, "integer delay": .05, "feedback reached": .2},
-         doc="karplus_strong == linearised feedback comb recursion on the given memory within 1e-9"),
+         floors={"fractional delay": .2, "integer delay": .05, "feedback reached": .2,
+                 "lag<1": .12, "1<=lag<2": .1, "lag>=2": .2},
+         doc="karplus_strong == linearised feedback comb recursion on the given memory within 1e-9, for lags "
+             "2*pi/freq of many samples, between 1 and 2 samples and below one sample (recursion solved "
+             "for the current sample)"),
   Clause("resample", strat_resample, run_resample, quick=900, thorough=12000,
          floors=dict([("order=%d" % p, .05) for p in range(5)],
                      **{"exact": .3, "float ratio": .05, "stream ratio": .05,
